@@ -10,9 +10,10 @@ ROOT = os.path.dirname(os.path.dirname(os.path.abspath(__file__)))
 CHECKS = {
     "C01": ("exploration",
             "bounded-exhaustive enumeration of program families, differential against CPython (reference interpreter)",
-            "Every program of 9 bounded families over the Python-shared core (operator expressions to depth 2, every "
+            "Every program of 12 bounded families over the Python-shared core (operator expressions to depth 2, every "
             "(start,stop,step) slice, every method/builtin x argument catalogue, all list/dict method histories to depth "
-            "2-3, all control-flow trees of <=4-5 statements, scoping and comprehension skeletons), each as literal and "
+            "2-3, all control-flow trees of <=4-5 statements, scoping and comprehension skeletons, traced comprehension clauses, size "
+            "thresholds, possibly-unassigned locals in conditionally evaluated positions), each as literal and "
             "opaque-variable form, at module level and inside a def, is run on the real evaluator and under CPython 3.11; "
             "transcripts and outcome must agree. Exhaustive within the stated bounds; nothing is sampled.",
             "CPython 3.11 is the reference; the whitelist of shared constructs (DESIGN.md C01 + Corrections) is trusted "
@@ -43,7 +44,8 @@ CHECKS = {
     "C04": ("exploration",
             "bounded-exhaustive cross product export x access path x discovered mutator / reader, frozen-vs-unfrozen differential on the real evaluator",
             "19 exported value graphs (nested, aliased and cyclic containers, struct, record, enum, range, scalars, closures, "
-            "partial): encodings, str/repr, == matrix and hashes observed inside the module before freezing must equal what "
+            "partial) plus pairs of strings whose 32-bit hashes collide (found by exhaustive search; one a literal, one built at run time): "
+            "encodings, str/repr, == matrix and hashes observed inside the module before freezing must equal what "
             "FrozenModule::get_owned, a load()ing module and a re-exporting module observe; every mutator discovered from "
             "dir(value) x argument catalogue + statement forms is attempted on each of 44 access paths to reachable containers "
             "and must fail leaving the value unchanged; ~50 read operations and all discovered non-mutating methods must give "
@@ -77,8 +79,10 @@ CHECKS = {
     "C07": ("exploration",
             "bounded-exhaustive: every discovered builtin/method x all argument tuples of arity <=2 (3) from a hostile catalogue; all evaluation histories up to length 2/3 over a failure-mode alphabet on one evaluator",
             "Part 1: every global of the extended environment and every attribute of 26 witness values (162 callables, "
-            "discovered via Globals::names and dir) is called with ALL tuples of arity 0, 1, 2 over a 37-value catalogue (extreme "
-            "ints, nan/inf, None, astral string, self-containing list, lambdas, ...) plus keyword / *args / **kwargs shapes, and "
+            "discovered via Globals::names and dir) is called with ALL tuples of arity 0, 1, 2 over a 40-value catalogue (the i32/i64 "
+            "boundaries and their neighbours, "
+            "nan/inf, None, astral string, self-containing list, lambdas, ...) plus keyword / *args / **kwargs shapes and the receiver "
+            "itself (bare or inside a container) passed to its own method, and "
             "every operator, index, slice, attribute, comprehension and format form on catalogue pairs: a value or an error "
             "with an in-file span and resolvable call stack, never a panic or abort (child processes). Part 2: all sequences "
             "of length <=2 (quick) / 3 over 17 snippets covering each way an evaluation can fail, on ONE evaluator and module: "
@@ -96,10 +100,10 @@ CHECKS = {
             "DESIGN.md#c08"),
     "C09": ("exploration",
             "all ordered pairs over a catalogue of constructions of the same abstract values (exhaustive), judged against an abstract equivalence / order",
-            "155 constructions (ints at +-2^31/2^53/2^63/2^64 via literal, arithmetic, int(), float; integral floats; nan, "
+            "160 constructions (thorough: 804, every scalar also wrapped in each container kind) (ints at +-2^31/2^53/2^63/2^64 via literal, arithmetic, int(), float; integral floats; nan, "
             "inf, -0.0; strings via literal/concat/slice/format/join/interning/host allocation; tuples, lists, dicts, sets, "
             "structs, ranges via several paths), ALL ordered pairs, in three modes (unfrozen x unfrozen, unfrozen x frozen+"
-            "loaded, frozen x frozen): ==, !=, symmetry, the four order operators, dict lookup, set membership, `in`, and "
+            "loaded, frozen x frozen; plus run-time operand from another heap against a constant operand): ==, !=, symmetry, the four order operators, dict lookup, set membership, `in`, and "
             "compile-time-folded == must agree with exact abstract equality/order; sorted/min/max are checked for order, "
             "reverse and stability. Agreement with an abstract equivalence on all pairs implies reflexivity, symmetry and "
             "transitivity on the catalogue.",
@@ -120,7 +124,7 @@ CHECKS = {
             "explicit-state BFS over the real containers (cloned per transition) in lock-step with a Vec-of-pairs reference model; invariant + all queries checked in every state",
             "Breadth-first search to a fixed point (or a stated depth) over SmallMap/SmallSet/Vec2/OrderedMap/OrderedSet/"
             "SortedMap/SortedSet/UnorderedMap/UnorderedSet: 4 active keys + up to 20 fillers under 6 hash patterns "
-            "(natural, distinct, all-colliding, pairwise, equal-low-bits, equal-high-bits), 10 start states that "
+            "(natural = a well-spread 64-bit word per key, distinct, all-colliding, pairwise, equal-low-bits, equal-high-bits), 10 start states that "
             "straddle the 16-entry index threshold (filled, pre-reserved, grown-then-shrunk), ~70 operations. Every "
             "transition runs on the implementation; every state compares every lookup/iteration with the model and "
             "evaluates the private hash-index invariant through the hook.",
@@ -132,7 +136,7 @@ CHECKS = {
             "Containers {list, dict, set} x every mutator DISCOVERED from dir(value) x argument catalogue + statement forms "
             "(57 mutators) x {for, nested for over the same value, for inside for, 12 expression constructs: comprehension "
             "clauses, dict comprehension, sorted/min/max key=, map, filter, any/all} x exits {exhaustion, break, continue, "
-            "return, error, error three frames down, error in callback} x {in def, module level} + 23 release-only "
+            "return, error, error three frames down, error in callback} x {in def, in a def with a return-type annotation, module level} + 23 release-only "
             "constructs: during iteration each mutation attempt must fail and leave the value intact; afterwards - in the "
             "same function, in the caller, and in a second eval_module after the host caught the error - it must succeed "
             "with the effect it has on a fresh container.",
@@ -143,9 +147,13 @@ CHECKS = {
             "All DAGs on 3 (quick) / 4 (thorough) modules x labellings of the edges with 7 load patterns (direct use, re-export, inside "
             "containers/struct, captured by a def, host import_public_symbols, OwnedFrozen::add_to_heap + Module::set, function only; "
             "<=2 distinct patterns) x handle variants (owned handle, mapped handles reaching into an EARLIER heap, clones, Globals built "
-            "from a handle, FrozenModule::from_globals, a module evaluated against those globals) x EVERY permutation of dropping the "
-            "objects, with allocation noise that recycles released chunks after each drop: after every drop each surviving module, "
+            "from a handle, FrozenModule::from_globals, a module evaluated against those globals, forwarding frozen heaps that only reference "
+            "another heap) x EVERY permutation of dropping the "
+            "objects, with allocation noise that recycles released chunks after each drop and (second variant) a collection at every "
+            "safepoint of every module evaluation: after every drop each surviving module, "
             "handle and Globals is re-observed (all exports encoded, functions called) and must equal its observation at creation. "
+            "Plus hold histories: a value obtained through load() kept as a plain Value while its importing module is dropped (unfrozen, "
+            "or frozen and the frozen module dropped) and the exporters are dropped. "
             "Dropped arenas are overwritten (hook), so a missing heap reference is a crash or a wrong read.",
             "Histories with more than 5/6 droppable objects permute only the newest 5/6. Cross-thread drops are covered by C20, not here.",
             "DESIGN.md#c13"),
@@ -153,7 +161,8 @@ CHECKS = {
             "enumeration of a finite configuration set (hash seed x ASLR x allocation noise x thread x repetition) for every program; byte-identical-output differential; canaries prove the configurations differ",
             "Programs printing order- and identity-bearing observations (dict/set/struct/dir() iteration after inserts and removals across "
             "the 16-entry threshold, hash(), json, str/repr of functions/natives/types/records/enums/partial/bound methods, full error "
-            "texts with did-you-mean suggestions and call stacks, generated families) and modules with several static diagnostics "
+            "texts with did-you-mean suggestions (incl. misspellings with 2/3/8 equally distant candidates for every kind of lookup) and "
+            "call stacks, generated families) and modules with several static diagnostics (k = 2/3/8 of each kind in one def, every ordered pair of kinds) "
             "(typechecker errors, type map, lints) are run in one process per configuration and twice within it; configurations = 6 std "
             "hash seeds (LD_PRELOAD getrandom shim) x ASLR on/off x 3 pre-allocation levels x {main, spawned, spawned-after-another-"
             "evaluation} thread. All outputs must be byte-identical; canaries assert that HashMap order, addresses and threads differ.",
@@ -185,8 +194,12 @@ CHECKS = {
             "bounded-exhaustive module families: (A) binding forms x right-hand sides judged by a rendered-type membership oracle after evaluation, (B) well-typed-by-construction modules, (C) determinism differential on a generated corpus",
             "A: every module of <=2 statements over 17 binding forms x 32 right-hand sides: each exported binding to which the checker "
             "assigns a type other than Any, with no approximation flagged, must hold a value of that type after evaluation (19k judged "
-            "bindings in quick). B: modules well typed by construction over int/str/bool/list[int]/dict[str,int] with annotated defs, "
-            "returns, assignments and calls: zero diagnostics. C: several thousand generated (mostly ill-typed) modules: no crash, "
+            "bindings in quick; incl. rebinding nested two levels deep in every subset of the branches of an if/elif/else chain). "
+            "B: modules well typed by construction over int/str/bool/list[int]/dict[str,int] and heterogeneous 3-4 element literals in every "
+            "arrangement of element types (as globals and held in locals) with annotated defs, "
+            "returns, assignments and calls: zero diagnostics. C: a totality family (every module of <=2 statements over 27 statement "
+            "templates with identifier holes x {defined, defined later, undefined, builtin, type} names, at module level and in a def) "
+            "plus several thousand generated (mostly ill-typed) modules: no crash, "
             "identical diagnostics twice in-process and under a different std hash seed.",
             "Rendered types are mapped to value classes by denotes() in py/checks/c17.py; renderings it does not know are counted, not judged.",
             "DESIGN.md#c17"),
@@ -198,13 +211,16 @@ CHECKS = {
             "the debug adapter with EVERY subset of the marker lines as breakpoints (continuing at each stop), stepping "
             "into/over/out, and conditional breakpoints. Transcript, result and error must equal the plain run; stops per line == "
             "executions of that line; locals and evaluate() at a stop == the value the marker prints; no stop without a "
-            "breakpoint; no hang (10 s watchdog).",
+            "breakpoint; no hang (10 s watchdog). Two-file sessions (a program calling into a loaded library): every sequence of <=3 "
+            "setBreakpoints requests over {file} x {none, one line, all lines}; stops per (file, line) must equal the executions of "
+            "that line under the breakpoint set that results when each request replaces only its own file's breakpoints.",
             "Known finding: module-level statements stop twice (the repository's own tests encode it).",
             "DESIGN.md#c18"),
     "C19": ("exploration",
             "bounded-exhaustive documents x positions x notification histories driven through the real server over an in-memory connection; scope oracle = executing the same document",
             "528 (quick) / 660 documents enumerating every combination of bindings of one name across 5 nested scopes (module, def "
-            "parameter/local before/after use, nested def, comprehension, lambda) x text variants with BMP / astral characters and "
+            "parameter/local before/after use, nested def, comprehension incl. the iterables of its first and later clauses, lambda incl. "
+            "a parameter default) x text variants with BMP / astral characters and "
             "CRLF placed before identifiers: go-to-definition at both ends of every use must land on an identifier of that name "
             "(sliced by UTF-16) bound in the scope the executed program actually read (each binding carries its scope tag, each "
             "use emits what it reads). Every (line, character) incl. past line ends and past the last line x {definition, hover, "
@@ -212,7 +228,8 @@ CHECKS = {
             "three requests after each; a two-document load case; diagnostics ranges must slice to the name they mention. One "
             "response per request within 10 s, no server panic, all ranges inside the current document under UTF-16; error positions "
             "of the evaluated documents equal an independent line/character computation.",
-            "Known finding: the server's position encoding is bytes in / code points out rather than UTF-16 (non-ASCII lines only).",
+            "Known finding: the server's position encoding is bytes in / code points out rather than UTF-16; a violation is filed under it only "
+            "when the response is exactly what an explicit model of that defect predicts.",
             "DESIGN.md#c19"),
     "C20": ("model_checking",
             "stateless model checking of the real code: preemption-bounded exhaustive DFS over thread schedules under a controlled "
@@ -220,14 +237,16 @@ CHECKS = {
             "interleavings in fresh processes",
             "cfg(starlark_verif) turns every operation on the shared mutable words of frozen heaps (chunk reference counts, lazily "
             "cached string hashes incl. the process-wide static one-byte strings, per-thread chunk-cache hand-over) into a "
-            "scheduling point; 9 harness bodies of 2-3 real threads (heaps sharing a chunk read/dropped on different threads, a heap "
-            "handed over through a blocking wait while its builder keeps carving the same chunk, load+call+freeze+drop against "
-            "concurrent callers, first-use hashing of shared strings) are run under EVERY schedule with <=2 preemptions at any "
-            "point (quick; <=3 thorough) and with <=4-8 preemptions at conflicting operations (reduced; <=6-12 thorough). Every "
+            "scheduling point; 10 harness bodies of 2-3 real threads (heaps sharing a chunk read/dropped on different threads, a heap "
+            "handed over through a blocking wait while its builder - and in one body also the receiver - keeps carving the same chunk, "
+            "load+call+freeze+drop against concurrent callers, first-use hashing of shared and of process-wide static strings) are run "
+            "under EVERY schedule with <=2 preemptions at any point (quick; <=3 thorough) and with <=3-6 preemptions at conflicting "
+            "operations (partial-order reduction; <=4-12 thorough). Every "
             "execution: per-thread observations == serial reference, no panic, no double free, no ref-count operation on a freed "
             "chunk (freed chunks are poisoned). Plus all interleavings of whole operations (load+call, hash, build/freeze/drop, "
             "publish/take/drop, record/enum, type matching, first use of Globals) on 2-3 threads, one fresh process each, compared "
-            "with solo runs.",
+            "with solo runs. A supplementary free-running pass (sampled, reported separately, never deciding) runs the operation alphabet "
+            "on 2-16 OS threads.",
             "Interleavings only under sequential consistency at the intercepted points: weak-memory effects, plain-memory data races "
             "between points, once_cell/AtomicFrozenAnyValueOption internals are not decided (DESIGN.md#c20).",
             "DESIGN.md#c20"),
